@@ -220,9 +220,15 @@ def run_job(job, deadline):
         alpha = real("alpha", 0, 1)
         ids = sens if job["ids"] == "pos" else [cols[j] for j in sens]
         wrap = (lambda A: A) if job["ids"] == "pos" else (lambda A: pd.DataFrame(A, columns=cols))
-        cr1 = CorrelationRemover(sensitive_feature_ids=ids, alpha=1)
+        if (n + s + m) % 2:
+            cr1 = CorrelationRemover(sensitive_feature_ids=ids, alpha=1)
+            cra = CorrelationRemover(sensitive_feature_ids=ids, alpha=alpha)
+        else:  # configured after construction, as clone / Pipeline.set_params / GridSearchCV do
+            cr1 = CorrelationRemover()
+            cr1.set_params(sensitive_feature_ids=ids, alpha=1)
+            cra = CorrelationRemover(sensitive_feature_ids=[], alpha=0.0)
+            cra.set_params(sensitive_feature_ids=ids, alpha=alpha)
         out1 = cr1.fit_transform(wrap(X))
-        cra = CorrelationRemover(sensitive_feature_ids=ids, alpha=alpha)
         cra.fit(wrap(X))
         outa = cra.transform(wrap(X))
         outz = cra.transform(wrap(X2))
